@@ -3,6 +3,7 @@ CONSTANTS
   MaxCorrupt = 1
   BlockLens = {1, 2}
   TableIds = {1, 2, 3, 4}
+  Reads = FALSE
   MaxLevel = 3
 VIEW View
 INVARIANT ConstraintInv
